@@ -51,6 +51,10 @@ def live_dump(env):
     return out
 
 
+class _Skip(Exception):
+    pass
+
+
 class TwinRunner(program.ProgramRunner):
     def __init__(self, env):
         info = CfgInfo(env)
@@ -67,11 +71,21 @@ class TwinRunner(program.ProgramRunner):
                 # malformed stream: a second object with an existing primary key
                 _, cname, pk = step
                 try:
+                    cur = self.find(cname, pk)
+                    pend_del = any(type(o).__name__ == cname and self.pk_value(cname, pk) == [getattr(o, k) for k in self.info.pk_attrs[cname]]
+                                   for o in self.s.deleted)
+                    if (cur is not None and sa.inspect(cur).pending) or pend_del:
+                        # two NEW objects with one key (or a new one next to an unflushed delete of that key) in one flush:
+                        # which of them SQLAlchemy lets take over the row depends on memory addresses, also without
+                        # continuum - not a program whose outcome is defined
+                        raise _Skip()
                     obj = self.make(cname, pk, {})
                     self.keepalive.append(obj)
                     self.s.add(obj)
                     self.s.flush()
                     res = 'ok'
+                except _Skip:
+                    res = 'skip'
                 except Exception as e:
                     res = self._exc(e)
                     self.s.rollback()
